@@ -7,7 +7,7 @@ CONSTANTS
   Assets = {"htlttwo"}
   Templates <- TemplatesTwo
   Locks = {1, 2}
-  Dts = {1, 2, 3}
+  Dts = {0, 1, 2, 5}
   Params0 <- ParamsTwo
   ParamAlts <- ParamAltsTwo
   MaxH = 6
